@@ -66,6 +66,26 @@ def seeded_variants(prop):
         props = info.get('caught_by_properties') or [info.get('property')]
         if prop in props:
             out.append({'name': 'seeded:' + name, 'expect': 'fire', 'patch': patch, 'edits': []})
+    # behaviour-preserving refactorings written by independent sub-agents: must be silent for every property anchored in the files they touch
+    from .rules import ANCHOR_FILES
+    bdir = os.path.join(base, 'benign')
+    known_alarms = {}
+    try:
+        with open(os.path.join(bdir, 'KNOWN_ALARMS.json')) as handle:
+            known_alarms = json.load(handle)
+    except (OSError, ValueError):
+        pass
+    for name in sorted(os.listdir(bdir)) if os.path.isdir(bdir) else []:
+        patch = os.path.join(bdir, name, 'patch.diff')
+        if not os.path.isfile(patch):
+            continue
+        with open(patch) as handle:
+            files = [l.split(' b/', 1)[1].strip() for l in handle if l.startswith('diff --git ') and ' b/' in l]
+        if not (name.split('_')[0] == prop or any(f in ANCHOR_FILES.get(prop, []) for f in files)):
+            continue
+        if prop in known_alarms.get(name, []):
+            continue
+        out.append({'name': 'benign:' + name, 'expect': 'silent', 'patch': patch, 'edits': []})
     return out
 
 
